@@ -161,6 +161,46 @@ def inject_cases(cls, x):
     return out
 
 
+def as_extension(cls):
+    """The instance carried as extension content of another element (add_extension_element, as the library does for
+    EncryptedAssertion / SOAP bodies / ArtifactResponse): converting must not change the instance, converting twice
+    gives the same, and the carried element parses back to an equal instance."""
+    import sys
+    import saml2_tophat
+    from saml2_tophat import samlp
+    x = schema.base_instance(cls, 1)
+    x.extension_elements.append(ext_elem(1))
+    x.extension_attributes['{%s}ea' % FOREIGN] = 'v<&'
+    try:
+        before = x.to_string()
+        c = samlp.Extensions()        # declares no children of its own
+        c.add_extension_element(x)
+        mid = x.to_string()
+        c.add_extension_elements([x])
+        after = x.to_string()
+    except Exception as e:
+        return 'conversion-to-extension-raised:%s' % type(e).__name__
+    if mid != before or after != before:
+        return 'conversion-to-extension-changed-the-instance'
+    e1, e2 = c.extension_elements
+    if schema.struct(e1) != schema.struct(e2):
+        return 'second-conversion-differs-from-first'
+    try:
+        y = saml2_tophat.create_class_from_xml_string(samlp.Extensions, c.to_string())
+        mod = sys.modules[cls.__module__]
+        f = getattr(mod, 'ELEMENT_FROM_STRING', {}).get(cls.c_tag)
+        if f is None or y is None:
+            return None
+        z = f(y.extension_elements[0].to_string())
+        if z is None or type(z) is not cls:
+            return None
+        if schema.struct(z) != schema.struct(x):
+            return 'carried-element-differs-after-round-trip'
+    except Exception as e:
+        return 'carried-element-round-trip-raised:%s' % type(e).__name__
+    return None
+
+
 def lookup_maps(cls):
     """Round trip through the module's registered *_from_string function, where one exists."""
     import sys
@@ -221,6 +261,10 @@ def evaluate(task):
         lm = lookup_maps(cls)
         if lm and lm not in ('unregistered', 'other-class'):
             bad.append(([['lookup-map']], lm))
+        ae = as_extension(cls)
+        n += 1
+        if ae:
+            bad.append(([['as-extension']], ae))
         res.append((cn, n, bad, lm))
     return res
 
@@ -267,7 +311,7 @@ def run(ctx):
         'coverage': {
             'evaluations': n_cases, 'distinct_nontrivial': len(nontriv), 'exhaustive': True, 'classes': len(classes),
             'modules': len(bymod), 'classes_without_from_string_registration': unregistered,
-            'rule': 'every SamlBase subclass of every schema module (discovered by walking the package) x {base instance with every declared attribute and child set (depth 2), every single deviation%s} from the catalogue (attribute absent/XML-special/non-ASCII/empty, foreign namespaced attribute with the same local name, list child count 0/2/3, single child absent, deviating child, leaf text special/non-ASCII/whitespace, plain and namespaced extension attributes, extension elements nested 1 and 2 deep) + a foreign child injected at every child position at the XML level + the module\'s registered *_from_string; in %s class orders within one process (order-dependent state); oracle: own structural comparison, second serialisation identical, children in c_child_order. non-trivial counts distinct classes' % (', every pair of deviations' if ctx.thorough else '', 'one' if ctx.thorough else 'three'),
+            'rule': 'every SamlBase subclass of every schema module (discovered by walking the package) x {base instance with every declared attribute and child set (depth 2), every single deviation%s} from the catalogue (attribute absent/XML-special/non-ASCII/empty, foreign namespaced attribute with the same local name, list child count 0/2/3, single child absent, deviating child, leaf text special/non-ASCII/whitespace, plain and namespaced extension attributes, extension elements nested 1 and 2 deep) + a foreign child injected at every child position at the XML level + the module\'s registered *_from_string + the instance carried as extension content of another element (converted twice, source unchanged, round trip); in %s class orders within one process (order-dependent state); oracle: own structural comparison, second serialisation identical, children in c_child_order. non-trivial counts distinct classes' % (', every pair of deviations' if ctx.thorough else '', 'one' if ctx.thorough else 'three'),
             'samples': [{'order': t0[0], 'module': t0[1], 'first_classes': t0[2][:3]}],
         },
         'assumptions': ['instances are built as objects: no mixed content (the object model has no tail)', "'' versus absent text is not generated (XML cannot distinguish them)"],
@@ -283,6 +327,9 @@ def replay(ctx, w):
         for d, why in inject_cases(cls, x):
             if d == w['deviations'][0]:
                 return {'violation': bool(why), 'why': why}
+    if w['deviations'] and w['deviations'][0][0] == 'as-extension':
+        ae = as_extension(cls)
+        return {'violation': bool(ae), 'why': ae}
     if w['deviations'] and w['deviations'][0][0] == 'lookup-map':
         lm = lookup_maps(cls)
         return {'violation': lm not in (None, 'unregistered', 'other-class'), 'why': lm}
